@@ -824,3 +824,41 @@ def run(prop="C14", tier="quick"):
                         % res["stats"].get("out_of_domain_paths", 0))
     res["exhaustive"] = True
     return res
+
+
+def run_state(prop="C15", tier="quick"):
+    """Assembly kernels hold no state of their own: the assembled object has no writable data section (.data, .bss, .tdata, ...) and no
+    instruction stores through a RIP-relative or absolute (symbol) address.  The whole-program who-writes-what analysis of the C units
+    (R-GLOBAL) cannot see a memo or counter that lives only in an .asm / .as file; this closes that gap for the 13 built kernels (quick)
+    and all 351 (thorough).  Jump tables live in .data.rel.ro.local / .rodata, which are read-only at run time."""
+    res = dict(findings=[], stats=collections.Counter(), samples=[], notes=[])
+    files = kernel_files(tier)
+    objs = assemble(files)
+    dec = decode(objs)
+    RO = (".rodata", ".data.rel.ro", ".note", ".comment", ".eh_frame", ".symtab", ".strtab", ".shstrtab", ".rela", ".rel", ".debug", ".group", ".text")
+    for src, obj in sorted(objs.items()):
+        d = dec.get(obj)
+        if d is None or d.get("error"):
+            raise AnalysisBroken("cannot decode %s" % src)
+        res["stats"]["kernels"] += 1
+        for sec in d["sections"]:
+            if sec["size"] > 0 and not sec.get("text") and not sec["name"].startswith(RO):
+                res["findings"].append(Finding(prop, "R-ABI.state", src, 0, os.path.basename(src), "mutable-section:%s" % sec["name"],
+                                               "the assembled kernel has a %d-byte writable section %s: state shared by every thread that calls the "
+                                               "routine, outside anything the manual documents" % (sec["size"], sec["name"])))
+            for ins in sec.get("insts", []):
+                res["stats"]["instructions"] += 1
+                if "store" in ins.get("f", []):
+                    for m in ins.get("mem", []):
+                        if m.get("disp_sym") or m.get("base", {}).get("top") == "rip" or (not m.get("base") and not m.get("index")):
+                            res["findings"].append(Finding(prop, "R-ABI.state", src, 0, os.path.basename(src), "global-store:+0x%x" % ins["a"],
+                                                           "`%s` stores to a fixed (RIP-relative / absolute) address: a kernel writes only through its "
+                                                           "pointer arguments and its own stack frame" % ins["t"].replace("\t", " ")))
+    floor = 13 if tier == "quick" else 340
+    if res["stats"]["kernels"] < floor:
+        raise AnalysisBroken("R-ABI.state analysed only %d kernels (floor %d)" % (res["stats"]["kernels"], floor))
+    res["stats"] = dict(res["stats"])
+    res["obligations"] = res["stats"]["kernels"]
+    res["samples"].append(dict(rule="R-ABI.state", kernels=res["stats"]["kernels"]))
+    res["exhaustive"] = True
+    return res
